@@ -32,6 +32,7 @@ def job(j):
                 st["world"] = World(rec["types"], rec["roots"])
             return
         st["n"] += 1
+        rec["argsync"] = (st["n"] % 2 == 1)       # third concurrency option: arguments coerced with gather / one by one
         mm, info, g = execreplay.run_schedule(st["world"], rec, check_serial=serial)
         st["dev"] += 1 if info["deviations"] else 0
         if info["max_pending"] >= 2:
